@@ -205,7 +205,7 @@ pub fn driver_answers_for_declared_part(deadline: &Deadline) -> Stats {
     let vnum = [0i64, 99, -1, 3];
     let qs = [V::Num(2), V::Num(98), V::Z, V::X];
     let positions = 3usize;
-    par_range("driver that also answers for the declared signal: 4 programs x 4 values given for it x 3 positions in the answer x 4 values of Q x {every call, from the second call on, never (declarations that merely rename an output included)}", (progs.len() * vnum.len() * positions * qs.len() * 3) as u64, deadline, |u, st| {
+    par_range("driver that also answers for the declared signal: 6 programs x 4 values given for it x 3 positions in the answer x 4 values of Q x {every call, from the second call on, never (declarations that merely rename an output included)}", (progs.len() * vnum.len() * positions * qs.len() * 3) as u64, deadline, |u, st| {
         let d = digits(u, &[3, qs.len() as u64, positions as u64, vnum.len() as u64, progs.len() as u64]);
         let (text, f) = progs[d[4]];
         let Ok(tc) = load(text, &sigs, DEFAULT_BUDGET) else { return };
